@@ -23,8 +23,10 @@ func (w *zzRW) Conn() Conn                  { return nil }
 func (w *zzRW) SetMessage(m *pool.Message) {}
 func (w *zzRW) Message() *pool.Message     { return nil }
 
-var zzPatterns = []string{"/a", "/a/b", "/a/{id}", "/{x}/b", "/a/{n:[0-9]+}", "/a/{id}/c", "/"}
-var zzPaths = []string{"/a", "/a/b", "/a/7", "/x/b", "/c", "", "/a/{id}", "/a/7/c", "/a/b/"}
+// literals with regular-expression metacharacters (in a variable-free pattern, after the last variable, before a
+// variable) must be matched literally
+var zzPatterns = []string{"/a", "/a/b", "/a/{id}", "/{x}/b", "/a/{n:[0-9]+}", "/a/{id}/c", "/", "/a.b", "/{x}/v1.0", "/d.e/{id}"}
+var zzPaths = []string{"/a", "/a/b", "/a/7", "/x/b", "/c", "", "/a/{id}", "/a/7/c", "/a/b/", "/a.b", "/axb", "/q/v1.0", "/q/v1x0", "/d.e/7", "/dxe/7"}
 
 func zzSplit(s string) []string {
 	var out []string
